@@ -86,9 +86,10 @@ def sanitiser_cases(rep, r):
     nexh = len(cases)
     pieces = [b"/", b"/", b".", b"..", b"a", b"bb", b"./", b"../", b"//", b"...", b".a", b"a.", b"..a", b"L" * 200,
               b"M" * 300, b"\xc3\xa9", b" "]
-    nrand = 1500 if rep.tier == "quick" else 60000
+    nrand = 1500 if rep.tier == "quick" else 20000
     for _ in range(nrand):
-        k = r.choice([1, 2, 3, 5, 8, 13, 40]) if r.random() < 0.9 else r.randrange(100, 600)
+        # (the model appends to the output list: quadratic in the length, so long strings are kept few)
+        k = r.choice([1, 2, 3, 5, 8, 13, 40]) if r.random() < (0.9 if rep.tier == "quick" else 0.99) else r.randrange(100, 600)
         s = b"".join(r.choice(pieces) for _ in range(k))
         cases.append(vfmt([1, r.choice(flagsets_full + [SEC, SEC | PERM | UNLINK]), s]))
     return cases, nexh
@@ -213,6 +214,8 @@ DIRECTED = [
     # deep path: longer than PATH_MAX
     [2, SEC | PERM | TIME, 0o22, [], [[T_FILE, b"/".join([LONGC] * 17 + [b"f"]), b"", 0o644, 7, b"deep"], [T_DIR, b"/".join([LONGC] * 18), b"", 0o755, 7, b""]]],
     [2, SEC, 0o22, [], [[T_FILE, b"M" * 300 + b"/f", b"", 0o644, 7, b"x"], [T_FILE, b"a/" + b"M" * 300, b"", 0o644, 7, b"x"]]],
+    # bsdunzip: a symlink two levels up (the target of the link contains the directory "sub")
+    [2, SEC, 0o22, [], [[T_SYMLINK, b"x", b"../outside", 0o777, 1, b""], [T_FILE, b"x/sub/evil", b"", 0o644, 1, b"evil"]]],
     # names that clean to "." and friends
     [2, SEC | PERM, 0o22, [], [[T_DIR, b"./", b"", 0o700, 7, b""], [T_FILE, b".", b"", 0o644, 7, b"x"], [T_DIR, b"a/./b//", b"", 0o711, 7, b""], [T_FILE, b"", b"", 0o644, 7, b""]]],
 ]
@@ -346,6 +349,9 @@ def frontend_oracle(case_line, impl_line):
         return ("C04:frontend:no-result", "front-end run produced no result: %s" % impl_line[:120])
     if outside != EXPECTED_OUTSIDE:
         key, what = classify_canary(EXPECTED_OUTSIDE, outside, case)
+        if fmt == 2:
+            # bsdunzip does not go through archive_write_disk: its own make_parent()/make_dir() path
+            key = "C04:bsdunzip:" + key.split(":", 1)[1].replace("canary:", "")
         return (key, "%s (default options): %s | %s" % (tool, what, describe_history([2, 0] + case[3:])))
     return None
 
@@ -394,7 +400,7 @@ def run(rep):
         rep.violation("C04:oracle-not-live", "no history without the secure flags changed the canary: the canary oracle sees nothing",
                       dict(broken="canary oracle"), found_input=False)
     # (3) front ends
-    fcases = frontend_cases(r, [vfmt(d) for d in DIRECTED] + hist[len(DIRECTED):], 40 if rep.tier == "quick" else 600)
+    fcases = frontend_cases(r, [vfmt(d) for d in DIRECTED] + hist[len(DIRECTED):], 66 if rep.tier == "quick" else 600)
     ran = run_frontends(rep, exe, fcases, stats)
     rep.coverage.update(
         evaluations=len(scases) + len(hist) + len(insecure) + len(fcases),
